@@ -26,3 +26,26 @@ func VerifDecryptLong() {
 	}
 	vnd.Cover(true, "long content handled")
 }
+
+// VerifDecryptBoundary: contents around the nonce length (24 bytes = 32 base64 characters): a constant
+// run of 'A's, optionally with a line break inside (ignored by the decoder), closed by four arbitrary
+// bytes (padding, line breaks, garbage). Decrypt must answer with an error or a plaintext, never panic.
+func VerifDecryptBoundary() {
+	totals := []int{28, 31, 32, 33, 34, 36, 56}
+	total := totals[vnd.Choose("total", vnd.Bound("boundary_lens", len(totals)))]
+	content := make([]byte, 0, total)
+	for i := 0; i < total-4; i++ {
+		content = append(content, 'A')
+	}
+	if vnd.Bool("linebreak") {
+		content[3] = '\n'
+	}
+	content = append(content, vnd.Bytes("tail", 4)...)
+	key := vnd.String("key", vnd.Choose("keylen", 2))
+	out, err := Decrypt(key, content)
+	if err == nil {
+		vnd.Assert(len(out) <= len(content), "plaintext not longer than the box")
+	}
+	vnd.Cover(err == nil, "content of nonce length or more decrypts")
+	vnd.Cover(err != nil && total >= 32, "32 characters or more, still refused")
+}
